@@ -557,6 +557,21 @@ def set_mass_locomotive(ctx, G):
     ga = [g for g in an.guards if not g.gate and ((g.cond == ('eq', se, ('none',)) and g.outcome != '0') or (g.cond == ('ne', se, ('none',)) and g.outcome == '0'))]
     ok_all &= ctx.check(bool(ga), R, fid + '|option', 'accepted only with MassSideEffect::None (the other options are rejected, not silently reinterpreted)',
                         'no unconditional guard side_effect == None on the Ok path', w)
+    # (a') the component masses are discarded exactly when they contradict the mass being set (derived mass != new mass) — the other way
+    #      round every real update is rejected by the checking getter and a confirming one throws the components away
+    ex = [c for c in an.calls if c.targets and any(t.endswith('Locomotive as Mass>::expunge_mass_fields') or t.endswith('::expunge_mass_fields') for t in c.targets)
+          and c.argvals and c.argvals[0][0] == 'ref' and c.argvals[0][1] == (('obj', 1),)]
+    if len(ex) != 1:
+        ctx.unproved(R, fid + '|expunge', 'expected one expunge_mass_fields(self) site, found %d' % len(ex), w)
+    else:
+        dec = [(cnd, o) for cnd, o in ex[0].pc if cnd[0] != 'pathset']
+        cnd, o = dec[-1] if dec else (None, None)
+        newv = ('pre', tuple(newp) + (('as', 'Some'), ('f', '#0')))
+        differs = cnd is not None and ((cnd[0] == 'ne' and o != '0') or (cnd[0] == 'eq' and o == '0') or (cnd[0] == 'not' and cnd[1][0] == 'eq' and o != '0'))
+        cmp_ = (cnd[1] if cnd is not None and cnd[0] == 'not' else cnd) or ()
+        ctx.check(differs and newv in cmp_[1:] and any('mass' in repr(z) for z in cmp_[1:] if z != newv), R, fid + '|expunge',
+                  'component masses are discarded exactly when the derived mass differs from the mass being set',
+                  'expunge_mass_fields is reached on outcome %s of %s' % (o, show(cnd, an.names)[:120] if cnd else None), ctx.where(b, ex[0].span))
     # (b) mass'
     dcalls = [c for c in an.calls if c.targets and any(t.endswith('::derived_mass') for t in c.targets) and c.argvals and c.argvals[0] == ('ref', (('obj', 1),), 'shr')]
     mcalls = [c for c in an.calls if c.targets and '<Locomotive as Mass>::mass' in c.targets and c.argvals and c.argvals[0] == ('ref', (('obj', 1),), 'shr')]
